@@ -20,6 +20,25 @@ def world_of(case, upto):
     return w
 
 
+def anc(parent, b):
+    out = set()
+    while b != 0:
+        out.add(b); b = parent[b]
+    return out
+
+
+def manual_inv(case, upto):
+    w = world_of(case, upto)
+    inv = set()
+    for s in case["steps"][:upto]:
+        a = s["a"]
+        if a[0] == "invalidate":
+            inv.add(a[1])
+        elif a[0] == "reconsider":
+            inv = {x for x in inv if not (x in anc(w["parent"], a[1]) or a[1] in anc(w["parent"], x))}
+    return sorted(inv)
+
+
 def check_deviations(ctx, res, obs_cfg, relevant):
     devs = res["deviations"]
     ctx.extra["deviations_from_prediction"] = ctx.extra.get("deviations_from_prediction", 0) + int(res["summary"].get("deviations", 0))
@@ -30,7 +49,7 @@ def check_deviations(ctx, res, obs_cfg, relevant):
         case = json.loads(res["lines"][d["index"]])
         k = d["step"]
         pre = case["steps"][k - 1]["exp"]["obs"] if k > 0 else case["init"]["obs"]
-        line = dict(world=world_of(case, k + 1), pre=pre, act=d["action"], post=d["state"]["obs"])
+        line = dict(world=world_of(case, k + 1), pre=pre, act=d["action"], post=d["state"]["obs"], inv=manual_inv(case, k), postinv=manual_inv(case, k + 1))
         lines.setdefault(vflib.canon(line), (line, d, case))
     keys = list(lines)
     bad = 0
